@@ -58,7 +58,8 @@ def gen_plan(rng, tier, index):
         plan['result'] = {'routine': rng.pick(['eval_fixed', 'eval_bootstrap_rdm', 'eval_bootstrap', 'crossval', 'bootstrap_crossval', 'eval_dual_bootstrap', 'eval_bootstrap_pattern']),
                           'models': [rng.pick(['fixed', 'weighted', 'select', 'interpolate']) for _ in range(rng.randint(1, 12 if rng.chance(0.06) else 3))],
                           'method': rng.pick(['cosine', 'corr', 'spearman']), 'N': rng.randint(3, 6),
-                          'fixed_nb': rng.pick([1, 1, 3])}      # a fixed model built from one RDM or from a stack (its mean predicts)
+                          'fixed_nb': rng.pick([1, 1, 3]),      # a fixed model built from one RDM or from a stack (its mean predicts)
+                          'frac_dof': rng.chance(0.25)}         # degrees of freedom need not be whole (a Welch-type correction)
     fops = []
     for _ in range(rng.randint(2, 8)):
         if rng.chance(0.6) or not fops:
@@ -401,6 +402,13 @@ def _decorate(obj, plan, kind):
 
 
 def _make_result(plan, ctx, data):
+    res = _make_result_raw(plan, ctx, data)
+    if plan['result'].get('frac_dof'):
+        res.dof = float(res.dof) + 0.6
+    return res
+
+
+def _make_result_raw(plan, ctx, data):
     from rsatoolbox.model import ModelFixed, ModelWeighted, ModelSelect, ModelInterpolate
     from rsatoolbox.model.fitter import fit_regress
     from rsatoolbox.rdm import RDMs
